@@ -59,6 +59,8 @@ class C01Monitor(Monitor):
                 if sd is not _UNOBS and sd is not None:
                     check_points(x, [sd.genome], w.box, "sprout seed", engines[l])
             x.flag("boundary checked")
+            if kind == "end" and x.desc.get("prelude"):
+                x.flag("second optimisation of the process, on a smaller box" + (" (level configs kept)" if x.desc.get("reuse_levels") else ""))
             if kind == "end":
                 for l, d in tree.all_demes:
                     es = getattr(d, "_cma_es", None)
@@ -140,6 +142,14 @@ def units(tier, seed):
             descs.append(dict(engines=list(eng), gens=3, box=box, obj=("sphere_in", "lin_corner")[k % 2], maximize=bool(k % 2), Mh=8, seed=s + k, sprout={"kind": "simple", "L": 1},
                               mstd_factor=0.1, seaa_step_factor=2.0, lsc=[None] * len(eng)))
     us = [{"kind": "run", "descs": c} for c in chunks(descs, 40)]
+    # a second optimisation in the same process on a SMALLER box inside the first one (zooming in), each pair in a brand-new
+    # interpreter: with fresh objects throughout, and with the level-config objects kept and pointed at the new problem
+    for k, eng in enumerate([("SEA", "CMAf"), ("LHS", "CMAw"), ("DE", "CMAs"), ("SEA", "DE"), ("SOB", "LOC"), ("LHS", "SOB"), ("SEAX", "SHADE"), ("GA", "MWEA")]):
+        first = dict(engines=list(eng), gens=1, box="B_sym", obj="sphere_in", Mh=3, seed=s, sprout={"kind": "simple", "L": 2}, choices="")
+        for j, box in enumerate(("B_asym", "B_zero")):
+            second = dict(engines=list(eng), gens=2, box=box, obj="lin_corner", maximize=bool((k + j) % 2), Mh=3, seed=s + 1, sprout={"kind": ("simple", "nbc")[j], "L": 2})
+            us.append({"kind": "run", "descs": [dict(second, prelude=[first])], "fresh_process": True})
+            us.append({"kind": "run", "descs": [dict(second, prelude=[dict(first, reuse_levels=f"zoom{k}")], reuse_levels=f"zoom{k}")], "fresh_process": True})
     # R deviations, bound 1 over every draw call
     rshapes = rep_shapes() if tier == "thorough" else rep_shapes()[:14]
     for k, eng in enumerate(rshapes):
@@ -191,7 +201,8 @@ def finish(res, tier):
         raise Vacuous("fewer than 500 executions with a point exactly on a face")
     if res.dev_kinds["R"] < 1000:
         raise Vacuous("fewer than 1000 RNG deviations explored")
-    for f in ("a CMA-ES deme terminated itself", "adaptive mutation spread outgrew the box"):
+    for f in ("a CMA-ES deme terminated itself", "adaptive mutation spread outgrew the box", "second optimisation of the process, on a smaller box",
+              "second optimisation of the process, on a smaller box (level configs kept)"):
         if res.flags[f] < 4:
             raise Vacuous(f"coverage flag '{f}' seen in {res.flags[f]} executions only")
     if res.configs_completed < res.configs:
